@@ -12,6 +12,7 @@ thresholds, priorities, steps, start clock time, duration) and all states satisf
 -/
 import WntrModel.Lemmas.Sched
 import WntrModel.Lemmas.SchedEarliest
+import WntrModel.Lemmas.SchedGeneral
 
 namespace Wntr.C04
 open Wntr.Time Wntr.Sched
@@ -262,6 +263,171 @@ theorem no_instant_skipped {cfg : Cfg} (hR : 0 < cfg.rule) (hH : 0 < cfg.hyd) (h
 
 /-- non-vacuity: a configuration without rules, a fresh start, the control of `cfgEx` at 5400 s -/
 example : (runSim { cfgEx with rules := [] } 0 (-1) [(0, 1)]).2.map (·.time) = [0, 3600, 5400, 7200, 10800, 14400] := by decide
+
+/-! ### the general statement: any time controls AND rules -/
+
+/-- **every event of a pass is served in time order** (any configuration): for a pass entered in state `s`, an event time
+`τ` — the instant of a control due in the pass, or a rule timestep from `_rule_iter` on — with `τ ≤` the accepted time `t`:
+if the event (rules of that rule timestep, then the controls of that instant in priority order, applied to the values at
+the start of the pass) changes a tracked value, then `t = τ` — the partial step lands exactly on it — and the values after
+the pass read, key by key, as those of the event -/
+theorem event_accepted {cfg : Cfg} (hR : 0 < cfg.rule) {s : St} (inv : Inv cfg s) (hnd : NodupKeys s.vals) (τ : Int)
+    (hτ : τ ≤ (presolve cfg false s).simTime)
+    (hev : (∃ d ∈ presolveDue cfg false s, τ = s.simTime - d.back) ∨ isRuleAt cfg s.ruleIter τ)
+    (hch : changed s.vals (eventAt cfg s.vals s.simTime s.ruleIter (presolveDue cfg false s) τ) = true) :
+    (presolve cfg false s).simTime = τ ∧
+      ∀ k, (presolve cfg false s).vals.get k = (eventAt cfg s.vals s.simTime s.ruleIter (presolveDue cfg false s) τ).get k := by
+  have E := presolve_events hR inv hnd
+  have hle : τ ≤ s.simTime := le_trans hτ E.le
+  have hnot : ¬ (τ < (presolve cfg false s).simTime ∨ changed s.vals (presolve cfg false s).vals = false) := by
+    intro h
+    have := E.before τ hle h hev
+    rw [hch] at this; exact absurd this (by simp)
+  have hland : (presolve cfg false s).simTime = τ := by
+    have : ¬ τ < (presolve cfg false s).simTime := fun h => hnot (Or.inl h)
+    omega
+  have hchg : changed s.vals (presolve cfg false s).vals = true := by
+    cases h : changed s.vals (presolve cfg false s).vals with
+    | true => rfl
+    | false => exact absurd (Or.inr h) hnot
+  refine ⟨hland, ?_⟩
+  have := (E.landed hchg).2
+  simp only at this
+  rw [hland] at this
+  exact this
+
+/-- **the value an accepted instant leaves** on key `k`: that of the highest-priority control due at that instant that
+writes `k` (ties: the later registered); if none writes `k`, what the rules of that rule timestep left; else the old value -/
+theorem event_value (cfg : Cfg) (s : St) (τ : Int) (k : Nat) :
+    (eventAt cfg s.vals s.simTime s.ruleIter (presolveDue cfg false s) τ).get k =
+      match winner k ((check cfg.startClock s.prevTime s.simTime cfg.presolve).filter (fun d => d.back == s.simTime - τ)) with
+      | some w => (w.writes k).getD 0
+      | none => (if isRuleAt cfg s.ruleIter τ then rulesAt cfg τ s.vals else s.vals).get k :=
+  eventAt_get cfg s τ k
+
+/-- what holds of every pass of a run from a fresh model -/
+structure PassOfRun (cfg : Cfg) (e : Bool × St) : Prop where
+  inv : Inv cfg e.2
+  nodup : NodupKeys e.2.vals
+  same : presolve cfg e.1 e.2 = presolve cfg false e.2
+  iter : e.2.ruleIter * cfg.rule - cfg.rule ≤ e.2.prevTime ∨ (e.2.prevTime = -1 ∧ e.2.ruleIter = 1)
+  window : e.2.simTime ≤ e.2.prevTime + cfg.hyd
+
+/-- **the passes of a run cover the time axis** (fresh start, any configuration): every time `τ` with `0 ≤ τ ≤` the last
+accepted time lies in the window `(prev, accepted]` of a pass of the run, and that pass is not longer than one
+hydraulic step -/
+theorem run_covered {cfg : Cfg} (hR : 0 < cfg.rule) (hH : 0 < cfg.hyd) (vals : Vals) (hnd : NodupKeys vals) (τ : Int)
+    (h0 : 0 ≤ τ) (h2 : τ ≤ (runSim cfg 0 (-1) vals).1.prevTime) :
+    ∃ e ∈ runTrace cfg (runFuel cfg (startState cfg 0 (-1) vals).prevTime) ((0 : Int) == 0) (startState cfg 0 (-1) vals),
+      PassOfRun cfg e ∧ e.2.prevTime < τ ∧ τ ≤ (presolve cfg false e.2).simTime := by
+  have hleft : ¬ NothingLeft cfg 0 := not_nothingLeft_of_le (Or.inl rfl)
+  rw [runSim_eq (-1) vals hleft] at h2
+  let J : St → Prop := fun s => NodupKeys s.vals ∧
+    (s.ruleIter * cfg.rule - cfg.rule ≤ s.prevTime ∨ (s.prevTime = -1 ∧ s.ruleIter = 1)) ∧ s.simTime ≤ s.prevTime + cfg.hyd
+  have hJ : ∀ first s, Inv cfg s → J s → (first = true → s.simTime = s.prevTime + 1) → J (stepOnce cfg first s).1 := by
+    intro first s inv hj _
+    have hs := stepOnce_stepped hR hH first inv
+    refine ⟨?_, Or.inl ?_, hs.sim_le⟩
+    · rw [stepOnce_fst]; exact hj.1.presolve first
+    · have h1 := hs.iter
+      have h3 := Int.ediv_mul_le (stepOnce cfg first s).1.prevTime (by omega : cfg.rule ≠ 0)
+      rw [h1, add_one_mul]; omega
+  have hJ0 : J (startState cfg 0 (-1) vals) := ⟨hnd, Or.inr ⟨rfl, rfl⟩, by show (0 : Int) ≤ -1 + cfg.hyd; omega⟩
+  obtain ⟨e, he, hinv, hj, hp, hl, hf⟩ := runTrace_cover hR hH J (fun s => s.simTime = s.prevTime + 1) hJ τ
+    (runFuel cfg (startState cfg 0 (-1) vals).prevTime) ((0 : Int) == 0) (startState cfg 0 (-1) vals) []
+    (startState_inv hR vals (Or.inl rfl)) hJ0 (fun _ => rfl) (by show (-1 : Int) < τ; omega) h2
+  have hsame : presolve cfg e.1 e.2 = presolve cfg false e.2 := by
+    cases hb : e.1 with
+    | false => rfl
+    | true =>
+      have := hf hb
+      have h2' : e.2 = startState cfg 0 (-1) vals := by rw [this]
+      rw [h2']; exact presolve_first_eq rfl
+  rw [hsame] at hl
+  exact ⟨e, he, ⟨hinv, hj.1, hsame, hj.2.1, hj.2.2⟩, hp, hl⟩
+
+/-- **`no_instant_skipped`, general** — any configuration (one-shot / repeating sim-time controls, daily clock controls,
+range conditions, AND rules), fresh start.  Let `τ` be an instant of a simple `=` time control `c` — `thr + k·repeat`
+(`k ≥ 0`; period not shorter than the hydraulic step) — with `0 ≤ τ ≤` the last accepted time.  Then the run has a pass in
+whose window `τ` lies, `c` is due in it with the backtrack that leads to `τ`, and if the event at `τ` (rules of a
+coinciding rule timestep, then all controls of that instant in priority order, on the values at the start of that pass)
+changes a tracked value, `τ` IS the accepted time of the pass and the values after it are those of the event — by
+`event_value`, on each key the highest-priority writer of that instant -/
+theorem no_instant_skipped_general {cfg : Cfg} (hR : 0 < cfg.rule) (hH : 0 < cfg.hyd) (vals : Vals) (hnd : NodupKeys vals)
+    (c : Ctl) (hc : c ∈ cfg.presolve) (thr rep : Int) (hcond : c.cond = .sim ⟨.eq, thr, rep⟩) (hper : rep > 0 → cfg.hyd ≤ rep)
+    (τ : Int) (hτ : SimInstant thr rep τ) (h0 : 0 ≤ τ) (h2 : τ ≤ (runSim cfg 0 (-1) vals).1.prevTime) :
+    ∃ e ∈ runTrace cfg (runFuel cfg (startState cfg 0 (-1) vals).prevTime) ((0 : Int) == 0) (startState cfg 0 (-1) vals),
+      PassOfRun cfg e ∧ e.2.prevTime < τ ∧ τ ≤ (presolve cfg false e.2).simTime ∧
+      (⟨c, .thenB, e.2.simTime - τ⟩ : Due) ∈ presolveDue cfg false e.2 ∧
+      (changed e.2.vals (eventAt cfg e.2.vals e.2.simTime e.2.ruleIter (presolveDue cfg false e.2) τ) = true →
+        (presolve cfg false e.2).simTime = τ ∧
+          ∀ k, (presolve cfg false e.2).vals.get k = (eventAt cfg e.2.vals e.2.simTime e.2.ruleIter (presolveDue cfg false e.2) τ).get k) := by
+  obtain ⟨e, he, P, hp, hl⟩ := run_covered hR hH vals hnd τ h0 h2
+  have hcur := (presolve_landed hR false P.inv).le
+  have hdue : (⟨c, .thenB, e.2.simTime - τ⟩ : Due) ∈ presolveDue cfg false e.2 := by
+    unfold presolveDue
+    simp only [Bool.false_eq_true, if_false]
+    rw [mem_sortDue]
+    apply mem_check_of_eval hc
+    rw [hcond]; simp only [Cond.eval]
+    exact evalSimTime_instant thr rep _ _ τ hτ hp (by omega) (fun h => by have := hper h; have := P.window; omega)
+  refine ⟨e, he, P, hp, hl, hdue, fun hch => ?_⟩
+  exact event_accepted hR P.inv P.nodup τ hl (Or.inl ⟨_, hdue, by simp only; omega⟩) hch
+
+/-- the same for a daily clock-time control `AT CLOCKTIME θ` (`first_day = fd`): its instants are
+`θ + 86400·d − start_clocktime`, `d ≥ fd` -/
+theorem no_instant_skipped_clock {cfg : Cfg} (hR : 0 < cfg.rule) (hH : 0 < cfg.hyd) (hday : cfg.hyd ≤ 86400) (vals : Vals)
+    (hnd : NodupKeys vals) (c : Ctl) (hc : c ∈ cfg.presolve) (θ fd : Int) (hcond : c.cond = .tod ⟨.eq, θ, true, fd⟩)
+    (hθ0 : 0 ≤ θ) (hθ1 : θ < 86400) (d : Int) (hd : fd ≤ d) (τ : Int) (hτ : τ = θ + 86400 * d - cfg.startClock)
+    (h0 : 0 ≤ τ) (h2 : τ ≤ (runSim cfg 0 (-1) vals).1.prevTime) :
+    ∃ e ∈ runTrace cfg (runFuel cfg (startState cfg 0 (-1) vals).prevTime) ((0 : Int) == 0) (startState cfg 0 (-1) vals),
+      PassOfRun cfg e ∧ e.2.prevTime < τ ∧ τ ≤ (presolve cfg false e.2).simTime ∧
+      (⟨c, .thenB, e.2.simTime - τ⟩ : Due) ∈ presolveDue cfg false e.2 ∧
+      (changed e.2.vals (eventAt cfg e.2.vals e.2.simTime e.2.ruleIter (presolveDue cfg false e.2) τ) = true →
+        (presolve cfg false e.2).simTime = τ ∧
+          ∀ k, (presolve cfg false e.2).vals.get k = (eventAt cfg e.2.vals e.2.simTime e.2.ruleIter (presolveDue cfg false e.2) τ).get k) := by
+  obtain ⟨e, he, P, hp, hl⟩ := run_covered hR hH vals hnd τ h0 h2
+  have hcur := (presolve_landed hR false P.inv).le
+  have hdue : (⟨c, .thenB, e.2.simTime - τ⟩ : Due) ∈ presolveDue cfg false e.2 := by
+    unfold presolveDue
+    simp only [Bool.false_eq_true, if_false]
+    rw [mem_sortDue]
+    apply mem_check_of_eval hc
+    rw [hcond]; simp only [Cond.eval]
+    have := evalTod_instant θ fd (e.2.prevTime + cfg.startClock) (e.2.simTime + cfg.startClock) d hθ0 hθ1 hd
+      (by omega) (by omega) (by have := P.window; omega)
+    rw [this]; congr 2; omega
+  refine ⟨e, he, P, hp, hl, hdue, fun hch => ?_⟩
+  exact event_accepted hR P.inv P.nodup τ hl (Or.inl ⟨_, hdue, by simp only; omega⟩) hch
+
+/-- **the rule half of the statement** — any configuration, fresh start: every positive rule timestep `r = k·rule_timestep`
+(`k ≥ 1`) up to the last accepted time is evaluated in the pass in whose window it lies (`rules_on_positive_grid`: exactly
+once), with the rules due at `r` under the repaired window `(ruleWindowLo r, r]` (`rule_eq_premise_window`,
+`rule_windows_tile`) applied in priority order (`rules_priority_wins`); and if that — followed by the time controls of a
+coinciding instant — changes a tracked value, `r` is an accepted time and the values after the pass are those of the
+event.  So a rule ACTS at the first rule timestep at which its premise holds and its action changes its target -/
+theorem rule_acts_on_grid {cfg : Cfg} (hR : 0 < cfg.rule) (hH : 0 < cfg.hyd) (vals : Vals) (hnd : NodupKeys vals)
+    (k : Int) (hk : 1 ≤ k) (h2 : k * cfg.rule ≤ (runSim cfg 0 (-1) vals).1.prevTime) :
+    ∃ e ∈ runTrace cfg (runFuel cfg (startState cfg 0 (-1) vals).prevTime) ((0 : Int) == 0) (startState cfg 0 (-1) vals),
+      PassOfRun cfg e ∧ e.2.prevTime < k * cfg.rule ∧ k * cfg.rule ≤ (presolve cfg false e.2).simTime ∧
+      isRuleAt cfg e.2.ruleIter (k * cfg.rule) ∧
+      (changed e.2.vals (eventAt cfg e.2.vals e.2.simTime e.2.ruleIter (presolveDue cfg false e.2) (k * cfg.rule)) = true →
+        (presolve cfg false e.2).simTime = k * cfg.rule ∧
+          ∀ key, (presolve cfg false e.2).vals.get key =
+            (eventAt cfg e.2.vals e.2.simTime e.2.ruleIter (presolveDue cfg false e.2) (k * cfg.rule)).get key) := by
+  have hpos : 0 ≤ k * cfg.rule := Int.mul_nonneg (by omega) (le_of_lt hR)
+  obtain ⟨e, he, P, hp, hl⟩ := run_covered hR hH vals hnd (k * cfg.rule) hpos h2
+  have hisr : isRuleAt cfg e.2.ruleIter (k * cfg.rule) := by
+    refine ⟨?_, Int.mul_emod_left _ _⟩
+    -- `_rule_iter` is the first rule timestep after the previous accepted time
+    have hit : e.2.ruleIter ≤ k := by
+      rcases P.iter with h | ⟨h1, h3⟩
+      · by_contra hgt
+        have : (k + 1) * cfg.rule ≤ e.2.ruleIter * cfg.rule := Int.mul_le_mul_of_nonneg_right (by omega) (le_of_lt hR)
+        rw [add_one_mul] at this; omega
+      · omega
+    exact Int.mul_le_mul_of_nonneg_right hit (le_of_lt hR)
+  exact ⟨e, he, P, hp, hl, hisr, fun hch => event_accepted hR P.inv P.nodup _ hl (Or.inr hisr) hch⟩
 
 /-- the due list is processed in the time order of the instants (backtracks descending) -/
 theorem due_in_time_order (cfg : Cfg) (s : St) :
